@@ -272,7 +272,7 @@ def topo_oracle(tris, what):
 VOL_REL_TOL = 0.02     # remeshing tolerance on V1+V2 vs V (see notes/C09.md: measured distribution, refine_mesh collapses edges)
 
 
-def daughters_oracle(mother_geo, ctr, axis, lmin, mtv, mtype, d1, d2, exact_volume=False):
+def daughters_oracle(mother_geo, ctr, axis, lmin, mtv, mtype, d1, d2, exact_volume=False, vol_rel_tol=None):
     """d = dict(id, type, tv, geo).  Returns list of failure texts."""
     bad = []
     V = vol6_geo(mother_geo) / 6.0
@@ -303,7 +303,7 @@ def daughters_oracle(mother_geo, ctr, axis, lmin, mtv, mtype, d1, d2, exact_volu
             bad.append("daughter %d has type %s, mother %s" % (k, d["type"], mtype))
         if d["tv"] != mtv / 2:
             bad.append("daughter %d has target volume %r, half of the mother's is %r" % (k, d["tv"], mtv / 2))
-    tol = (1e-9 if exact_volume else VOL_REL_TOL) * abs(V)
+    tol = (1e-9 if exact_volume else (vol_rel_tol if vol_rel_tol is not None else VOL_REL_TOL)) * abs(V)
     if abs(vols[0] + vols[1] - V) > tol:
         bad.append("daughter volumes %g + %g differ from the mother's %g by %g (tolerance %g)" % (vols[0], vols[1], V, vols[0] + vols[1] - V, tol))
     return bad, (vols[0] + vols[1] - V) / abs(V) if V else 0.0
